@@ -106,9 +106,11 @@ func (m *PacketFactoryCopy) NewPacket(
 		if retainablePacket.header.Padding {
 			// Older versions of pion/rtp didn't have the Header.PaddingSize field and as a workaround
 			// users had to add padding to the payload. We need to handle this case here.
-			if retainablePacket.header.PaddingSize == 0 && len(retainablePacket.payload) > 0 {
-				paddingLength := int(retainablePacket.payload[len(retainablePacket.payload)-1])
-				if paddingLength > len(retainablePacket.payload) {
+			// The padding count is the last byte of the original payload, not of the copy
+			// that is prefixed with the original sequence number.
+			if retainablePacket.header.PaddingSize == 0 && len(payload) > 0 {
+				paddingLength := int(payload[len(payload)-1])
+				if paddingLength > len(payload) {
 					return nil, errPaddingOverflow
 				}
 				retainablePacket.payload = (*retainablePacket.buffer)[:len(retainablePacket.payload)-paddingLength]
